@@ -398,7 +398,7 @@ class Canon:
 
 def unify(lines: List[str], patterns: List[str], binding: Optional[Dict[str, str]] = None) -> Optional[Dict[str, str]]:
     """Match `patterns` (in any order of lines) against canonical lines. In a pattern `?name` stands for one local (`%k`), bound
-    consistently across patterns; `...` stands for any text. Returns the binding of the first consistent match (plus `#i` ->
+    consistently across patterns; `?{name}` captures any text (bound consistently too); `...` stands for any text. Returns the binding of the first consistent match (plus `#i` ->
     index of the line matched by the i-th pattern, counted over the whole chain of calls sharing a binding), or None."""
     binding = dict(binding or {})
     if not patterns:
@@ -407,9 +407,18 @@ def unify(lines: List[str], patterns: List[str], binding: Optional[Dict[str, str
     pos = sum(1 for k in binding if k.startswith("#"))
     rx = ""
     names = []
-    for tok in re.split(r"(\?[A-Za-z_]\w*|\.\.\.)", pat):
+    for tok in re.split(r"(\?\{[A-Za-z_]\w*\}|\?[A-Za-z_]\w*|\.\.\.)", pat):
         if tok == "...":
             rx += ".*?"
+        elif tok.startswith("?{"):
+            nm = tok[2:-1]
+            if nm in binding:
+                rx += re.escape(binding[nm])
+            elif nm in names:
+                rx += f"(?P={nm})"
+            else:
+                names.append(nm)
+                rx += f"(?P<{nm}>.+?)"
         elif tok.startswith("?") and len(tok) > 1:
             nm = tok[1:]
             if nm in binding:
